@@ -82,6 +82,14 @@ var c12Forms = []c12form{
 	{name: "setvar", sql: "SETVAR('k', a)", direct: true},
 	{name: "fuse", sql: "FUSE(o)", direct: true},
 	{name: "report-when", sql: "REPORT_WHEN(a > 1, 'seen')", direct: true},
+	// AWAIT defers the evaluation of its argument to the end of the query: the deferred value goes
+	// through the same slot as an ASYNC result
+	{name: "await-column", sql: "AWAIT(a)", direct: true},
+	{name: "await-object", sql: "AWAIT(o)", direct: true},
+	{name: "await-setvar", sql: "AWAIT(SETVAR('k', a))", direct: true},
+	{name: "await-fuse", sql: "AWAIT(FUSE(o))", direct: true},
+	{name: "await-report-when", sql: "AWAIT(REPORT_WHEN(a > 1, 'seen'))", direct: true},
+	{name: "await-subquery", sql: "AWAIT((SELECT q FROM items))", direct: true},
 }
 
 type c12pos struct {
@@ -148,6 +156,7 @@ var c12Extra = []struct {
 	{"union-two-columns", "SELECT b, 1 AS one FROM t UNION SELECT b, 1 AS one FROM t UNION SELECT b, 1 AS one FROM u", false, false},
 	{"distinct-star-duplicates", "SELECT DISTINCT * FROM (SELECT b, 'x' AS k FROM t) AS d", false, false},
 	{"union-async", "SELECT ASYNC.HMID(a) AS m FROM t UNION ALL SELECT a AS m FROM t", false, true},
+	{"async-nested-from-filtered", "SELECT ASYNC.HMID(a) AS m, id FROM m WHERE HFAST(a) > 0", false, true},
 	{"union-async-both", "SELECT ASYNC.HMID(a) AS m, id FROM t UNION SELECT ASYNC.HFAST(a) AS m, id FROM t", false, true},
 }
 
@@ -156,6 +165,7 @@ type c12case struct {
 	sig    string
 	multi  bool
 	spawns bool
+	sched  int // preemption bound for goroutine-spawning queries
 }
 
 type c12 struct {
@@ -176,15 +186,23 @@ func (p *c12) Init(tier string) {
 	}
 	for _, f := range c12Forms {
 		for pi, pos := range c12Positions {
-			if f.direct && pi > 1 && pos.name != "cte" && pos.name != "derived" && pos.name != "order-by" && pos.name != "union" && pos.name != "distinct" {
+			if f.direct && pi > 1 && pos.name != "cte" && pos.name != "derived" && pos.name != "order-by" && pos.name != "union" && pos.name != "distinct" && pos.name != "nested-from" {
 				continue
 			}
 			sql := strings.ReplaceAll(pos.sql, "%s", f.sql)
-			p.cases = append(p.cases, c12case{sql: sql, sig: f.name + "@" + pos.name, multi: pos.multi, spawns: f.spawns})
+			cse := c12case{sql: sql, sig: f.name + "@" + pos.name, multi: pos.multi, spawns: f.spawns}
+			if f.spawns && pos.name == "nested-from" {
+				cse.sched = 2
+			}
+			p.cases = append(p.cases, cse)
 		}
 	}
 	for _, e := range c12Extra {
-		p.cases = append(p.cases, c12case{sql: e.sql, sig: e.name, multi: e.multi, spawns: e.spawns})
+		cse := c12case{sql: e.sql, sig: e.name, multi: e.multi, spawns: e.spawns}
+		if strings.Contains(e.name, "nested-from") {
+			cse.sched = 2
+		}
+		p.cases = append(p.cases, cse)
 	}
 }
 
@@ -228,6 +246,15 @@ func (p *c12) RunCase(i int) *core.CaseResult {
 		cfg := vrt.Config{MapOrder: true, Sched: c.spawns, Quiet: true}
 		vrt.SetQuiet(genql.VerifSelectorMutex())
 		gq.MaxSched, gq.MaxMap = 1, p.bound
+		bound := p.bound + 1
+		if c.sched > 1 {
+			// one copy of the query per inner array, each awaited through its parent: the windows
+			// between "copy adopted" and "copy finished" need two preemptions to be entered
+			gq.MaxSched = c.sched
+			if bound < c.sched {
+				bound = c.sched
+			}
+		}
 		var first []string
 		var firstSorted []string
 		have := false
@@ -235,7 +262,7 @@ func (p *c12) RunCase(i int) *core.CaseResult {
 		cs := func(prefix []int32) map[string]any {
 			return map[string]any{"sql": c.sql, "doc": mk(), "choices": prefix}
 		}
-		st := gq.ExploreQuery(cfg, p.bound+1, 400000,
+		st := gq.ExploreQuery(cfg, bound, 400000,
 			func() (map[string]any, string, []genql.QueryOption) {
 				hOnceCounter = 0
 				return mk(), c.sql, []genql.QueryOption{genql.WithVars(map[string]any{"k": 7.0}), genql.WithConstants(map[string]any{"c": 1.0}), genql.UnReportedErrors(func(error) {})}
@@ -299,7 +326,7 @@ func (p *c12) RunCase(i int) *core.CaseResult {
 		if st.Capped {
 			r.Capped = true
 		}
-		if st.BoundDone >= 0 && st.BoundDone-1 < r.BoundDone && len(r.Viol) == 0 && st.BoundDone < p.bound+1 {
+		if st.BoundDone >= 0 && st.BoundDone-1 < r.BoundDone && len(r.Viol) == 0 && st.BoundDone < bound {
 			r.BoundDone = st.BoundDone
 		}
 		if firstErr == "" && have && len(first) > 0 {
